@@ -267,3 +267,20 @@ Theorem C10_source_tie_euler_builders :
      quaternionToEulerAngles ROps ROps idR idR q = Some (src_quaternionToEulerAngles ROps q)).
 Proof. exact source_tie_euler_builders. Qed.
 Print Assumptions C10_source_tie_euler_builders.
+
+From Coq Require Import List String.
+Import ListNotations.
+(* the polar / spherical conversions of include/romea_core_common/coordinates (template classes with a base class, getters and
+   static member templates, all inlined by the evaluator) — the maps C10_polar_* / C10_spherical_* are about.  toSpherical:
+   wherever the C++ does not produce NaN (range > 0, |z/range| <= 1), as the model's guards say. *)
+Theorem C10_source_tie_coordinates :
+  (forall x y, src_toPolar ROps (x, y) = toPolar ROps x y) /\
+  (forall r az, src_polarToCartesian ROps az r = polarToCartesian ROps r az) /\
+  (forall x y z, let r := nsqrt ROps (x * x + y * y + z * z) in
+     nltb ROps 0 r = true -> nleb ROps (nabs ROps (z / r)) 1 = true ->
+     toSpherical ROps x y z = Some (src_toSpherical ROps (mkV3 x y z))) /\
+  (forall r az el, src_sphericalToCartesian ROps az el r = sphericalToCartesian ROps r az el) /\
+  (src_toPolar_outputs = ["range_"; "azimut_"]%string /\ src_polarToCartesian_inputs = ["arg0.azimut_"; "arg0.range_"]%string /\
+   src_toSpherical_outputs = ["range_"; "azimut_"; "elevation_"]%string /\
+   src_sphericalToCartesian_inputs = ["arg0.azimut_"; "arg0.elevation_"; "arg0.range_"]%string).
+Proof. exact source_tie_coordinates. Qed.
